@@ -25,4 +25,4 @@ old = {}
 try: old = {r[0]: r for r in json.load(open("/verif/work/seeded_results.json"))}
 except Exception: pass
 for r in rows: old[r[0]] = r
-json.dump(sorted(old.values()), open("/verif/work/seeded_results.json", "w"), indent=1)
+json.dump(sorted(list(v) for v in old.values()), open("/verif/work/seeded_results.json", "w"), indent=1)
